@@ -5,6 +5,7 @@ import (
 	"encoding/json"
 	"flag"
 	"fmt"
+	"math/rand"
 	"os"
 	"sort"
 	"strings"
@@ -218,7 +219,13 @@ func init() {
 	streams["glue"] = func(seed int64, idx int) *scenario { return runGlueScenario(seed*1000003 + int64(idx)) }
 	streams["nego"] = func(seed int64, idx int) *scenario { return runNegoScenario(seed*1000003+int64(idx), idx) }
 	streams["matrix"] = func(seed int64, idx int) *scenario { return runMatrixScenario(seed, idx+int(seed%7)*61) }
-	streams["sched"] = func(seed int64, idx int) *scenario { return runSchedScenario(seed*1000003 + int64(idx)) }
+	streams["sched"] = func(seed int64, idx int) *scenario {
+		if idx%8 == 7 {
+			sd := seed*1000003 + int64(idx)
+			return runSchedBlockedWriterReader(sd, rand.New(rand.NewSource(sd)), (idx/8)%3)
+		}
+		return runSchedScenario(seed*1000003 + int64(idx))
+	}
 	streams["prep"] = func(seed int64, idx int) *scenario {
 		return runWriterScenario(seed*1000003+int64(idx), wOpts{prepared: true, preparedHeavy: true, compress: true, multi: true, closes: idx%6 == 0, invalid: idx%3 == 0, bigPayload: idx%8 == 0}, -1, "")
 	}
